@@ -8,7 +8,7 @@ use std::borrow::Borrow;
 
 /// model limit: at most CAP entries.  The search loops run over `0..CAP` with an early exit, so their trip count
 /// is a constant for CBMC.
-pub const CAP: usize = 4;
+pub const CAP: usize = 3;
 
 #[derive(Debug, Clone)]
 pub struct AMap<K, V> {
@@ -16,7 +16,7 @@ pub struct AMap<K, V> {
 }
 
 impl<K, V> Default for AMap<K, V> {
-    fn default() -> Self { AMap { items: Vec::new() } }
+    fn default() -> Self { AMap { items: Vec::with_capacity(CAP) } }
 }
 
 pub struct Entry<'a, K, V> {
@@ -59,8 +59,9 @@ impl<'a, K, V> Entry<'a, K, V> {
 }
 
 impl<K: PartialEq, V> AMap<K, V> {
-    pub fn new() -> Self { AMap { items: Vec::new() } }
-    pub fn with_capacity(n: usize) -> Self { AMap { items: Vec::with_capacity(n) } }
+    /// capacity for CAP entries up front: no reallocation later (Vec growth is expensive in symbolic execution)
+    pub fn new() -> Self { AMap { items: Vec::with_capacity(CAP) } }
+    pub fn with_capacity(_n: usize) -> Self { Self::new() }
     pub fn len(&self) -> usize { self.items.len() }
     pub fn is_empty(&self) -> bool { self.items.is_empty() }
     pub fn reserve(&mut self, _n: usize) {}
@@ -151,7 +152,7 @@ impl<K: PartialEq, V> AMap<K, V> {
 
 impl<K: PartialEq, V> FromIterator<(K, V)> for AMap<K, V> {
     fn from_iter<I: IntoIterator<Item = (K, V)>>(it: I) -> Self {
-        let mut m = AMap::new();
+        let mut m: AMap<K, V> = AMap::new();
         for (k, v) in it { m.insert(k, v); }
         m
     }
